@@ -302,6 +302,8 @@ def main(tier):
     rep.attempt(check_state_handled, rep, mod)
     rep.attempt(check_tmp_twins, rep, mod)
     rep.attempt(check_hist_keep, rep, mod)
+    import c11
+    rep.attempt(c11.check_adler_bam1, rep, mod)        # the zlib checksum carried from call to call
     rep.attempt(c19.check_hdr_persist, rep, mod)      # a wrapper header cut by a call boundary is parsed like the same header in one piece
     import c05
     rep.attempt(c05.check_c_loads, rep)      # chunks are separate memory regions: nothing behind a chunk may be read (M-ENDDIST-C, M-COMPARE-BOUND)
